@@ -293,6 +293,8 @@ def run(tier, res, replay=None):
     # five consecutive sides are defined by no bundle -> four cells between
     c['_hexside_cells'] = {a: 4 for a in range(1, 7)}
     rec.append(('7-bundle-among-lowfi', c))
+    rec.append(('7-tight-coarse-among-loose-fine',
+                scenarios.tight_among_loose(rng)))
     with ProcessPoolExecutor(max_workers=common.NCPU) as ex:
         traces = list(ex.map(synth_trace, syn, chunksize=8))
         traces += list(ex.map(near_trace, near_cases(rng, tier),
